@@ -1371,9 +1371,13 @@ class OperatorComp(Operator):
         if out is None:
             return self.left(self.right(x))
         else:
-            tmp = (self.__tmp if self.__tmp is not None
-                   else self.right.range.element())
-            self.right(x, out=tmp)
+            if self.right.is_functional:
+                # Cannot use `out` for functionals
+                tmp = self.right(x)
+            else:
+                tmp = (self.__tmp if self.__tmp is not None
+                       else self.right.range.element())
+                self.right(x, out=tmp)
             return self.left(tmp, out=out)
 
     @property
